@@ -268,22 +268,30 @@ from TotalDepth.LIS.core import File, FileIndexer, PhysRec, TifMarker, LogiRec
 CHS = [(b'DEPT', b'FEET', 4, 1, 73), (b'GR  ', b'GAPI', 4, 1, 73), (b'SP  ', b'MV  ', 2, 1, 79)]
 
 
-def _build(frames_per_rec, indirect, tif, table, maxpl):
+def _xmodel(var):
+    """var bit 0: down log (X increases); bit 1: frame spacing declared in other units than the X axis: 5 FEET = 600 tenth-inches
+    (the conversion 5 * 0.3048 / 0.00254 is exact in doubles, so the implied X values stay exact)."""
+    step = 600 if var & 2 else 60
+    return (lambda g: 1000 + step * g) if var & 1 else (lambda g: 1000 - step * g)
+
+
+def _build(frames_per_rec, indirect, tif, table, maxpl, var=0):
     chs = CHS[1:] if indirect else CHS
+    xof = _xmodel(var)
     lrs = [L.file_head_tail(128)]
     kinds = [128]
     if table:
         lrs.append(L.table_record(34, b'CONS', [(b'BS  ', [(b'VALU', 73, L.i32(85), b'IN  ')])]))
         kinds.append(34)
-    lrs.append(L.dfsr(chs, indirect))
+    lrs.append(L.dfsr(chs, indirect, up=not (var & 1), spacing=5 if var & 2 else 60, spacing_units=b'FEET' if var & 2 else b'.1IN'))
     kinds.append(64)
     g = 0
     model = []
     for n in frames_per_rec:
         frames = []
-        x0 = 1000 - 60 * g
+        x0 = xof(g)
         for f in range(n):
-            x = 1000 - 60 * g
+            x = xof(g)
             row = [x, 7 * g + 1, -g]
             model.append(row)
             fb = (b'' if indirect else L.i32(x)) + L.i32(row[1]) + L.i16(row[2])
@@ -308,22 +316,23 @@ def _positions_of(kinds, pos, nrec):
     return out
 
 
-def index_structure(nrec: int, f0: int, f1: int, f2: int, indirect: bool, tif: bool, table: bool, split: bool) -> bool:
+def index_structure(nrec: int, f0: int, f1: int, f2: int, indirect: bool, tif: bool, table: bool, split: bool, var: int = 0) -> bool:
     """
     pre: 1 <= nrec <= 3
     pre: 1 <= f0 <= 3 and 1 <= f1 <= 3 and 1 <= f2 <= 3
+    pre: 0 <= var <= 3
     pre: PART < 0 or (8 if indirect else 0) + (4 if tif else 0) + (2 if table else 0) + (1 if split else 0) == PART
     post: _
     """
     nrec, f0, f1, f2 = mark.pick(nrec, 1, 3), mark.pick(f0, 1, 3), mark.pick(f1, 1, 3), mark.pick(f2, 1, 3)
-    indirect, tif, table, split = mark.pickb(indirect), mark.pickb(tif), mark.pickb(table), mark.pickb(split)
+    indirect, tif, table, split, var = mark.pickb(indirect), mark.pickb(tif), mark.pickb(table), mark.pickb(split), mark.pick(var, 0, 3)
     with mark.untraced():
-        return _index_structure(nrec, f0, f1, f2, indirect, tif, table, split)
+        return _index_structure(nrec, f0, f1, f2, indirect, tif, table, split, var)
 
 
-def _index_structure(nrec, f0, f1, f2, indirect, tif, table, split):
+def _index_structure(nrec, f0, f1, f2, indirect, tif, table, split, var=0):
     fpr = [f0, f1, f2][:nrec]
-    data, pos, kinds, model = _build(fpr, indirect, tif, table, 24 if split else None)
+    data, pos, kinds, model = _build(fpr, indirect, tif, table, 24 if split else None, var)
     f = File.FileRead(SymFile(data), 'id', False)
     idx = FileIndexer.FileIndex(f)
     mark.hit()
@@ -353,7 +362,7 @@ def _index_structure(nrec, f0, f1, f2, indirect, tif, table, split):
                 return False
             g += 1
     even = all(n == fpr[0] for n in fpr)
-    if nrec > 1 and even and lp.xAxisLastVal != 1000 - 60 * (tot - 1):
+    if nrec > 1 and even and lp.xAxisLastVal != _xmodel(var)(tot - 1):
         return False
     return True
 
@@ -380,8 +389,8 @@ def _known_x_var(sel, fpr, i):
     return first_i >= 1 and sel[first_i] - starts[rec] >= 1
 
 
-def _load(fpr, indirect, tif, start, stop, step, m1, m2, second):
-    data, pos, kinds, model = _build(fpr, indirect, tif, False, None)
+def _load(fpr, indirect, tif, start, stop, step, m1, m2, second, var=0):
+    data, pos, kinds, model = _build(fpr, indirect, tif, False, None, var)
     sf = SymFile(data)
     f = File.FileRead(sf, 'id', False)
     idx = FileIndexer.FileIndex(f)
@@ -428,34 +437,36 @@ def _load(fpr, indirect, tif, start, stop, step, m1, m2, second):
     return True
 
 
-def load_slices(f0: int, f1: int, f2: int, indirect: bool, tif: bool, start: int, stop: int, step: int, m1: bool, m2: bool, second: bool) -> bool:
+def load_slices(f0: int, f1: int, f2: int, indirect: bool, tif: bool, start: int, stop: int, step: int, m1: bool, m2: bool, second: bool, var: int = 0) -> bool:
     """
     pre: 1 <= f0 <= 2 and 2 <= f1 <= 3 and 1 <= f2 <= 2
     pre: 0 <= start < stop <= f0 + f1 + f2 and 1 <= step <= 3
     pre: m1 or m2
+    pre: 0 <= var <= 3
     pre: PART < 0 or (16 if indirect else 0) + (8 if tif else 0) + (4 if second else 0) + (2 if m1 else 0) + (1 if m2 else 0) == PART
     post: _
     """
     f0, f1, f2 = mark.pick(f0, 1, 2), mark.pick(f1, 2, 3), mark.pick(f2, 1, 2)
     start, stop, step = mark.pick(start, 0, 6), mark.pick(stop, 1, 7), mark.pick(step, 1, 3)
-    indirect, tif, m1, m2, second = mark.pickb(indirect), mark.pickb(tif), mark.pickb(m1), mark.pickb(m2), mark.pickb(second)
+    indirect, tif, m1, m2, second, var = mark.pickb(indirect), mark.pickb(tif), mark.pickb(m1), mark.pickb(m2), mark.pickb(second), mark.pick(var, 0, 3)
     with mark.untraced():
-        return _load([f0, f1, f2], indirect, tif, start, stop, step, m1, m2, second)
+        return _load([f0, f1, f2], indirect, tif, start, stop, step, m1, m2, second, var)
 
 
-def load_slices_q(f1: int, indirect: bool, tif: bool, start: int, stop: int, step: int, m1: bool, m2: bool, second: bool) -> bool:
+def load_slices_q(f1: int, indirect: bool, tif: bool, start: int, stop: int, step: int, m1: bool, m2: bool, second: bool, var: int = 0) -> bool:
     """
     pre: 2 <= f1 <= 3
     pre: 0 <= start < stop <= 3 + f1 and 1 <= step <= 3
     pre: m1 or m2
+    pre: 0 <= var <= 3 and (indirect or var <= 1)
     pre: PART < 0 or (16 if indirect else 0) + (8 if tif else 0) + (4 if second else 0) + (2 if m1 else 0) + (1 if m2 else 0) == PART
     post: _
     """
     f1 = mark.pick(f1, 2, 3)
     start, stop, step = mark.pick(start, 0, 5), mark.pick(stop, 1, 6), mark.pick(step, 1, 3)
-    indirect, tif, m1, m2, second = mark.pickb(indirect), mark.pickb(tif), mark.pickb(m1), mark.pickb(m2), mark.pickb(second)
+    indirect, tif, m1, m2, second, var = mark.pickb(indirect), mark.pickb(tif), mark.pickb(m1), mark.pickb(m2), mark.pickb(second), mark.pick(var, 0, 3)
     with mark.untraced():
-        return _load([2, f1, 1], indirect, tif, start, stop, step, m1, m2, second)
+        return _load([2, f1, 1], indirect, tif, start, stop, step, m1, m2, second, var)
 
 
 shim_structs(PhysRec)
